@@ -146,13 +146,6 @@ def hook_packages(
     # ....................{ HOOKS                          }....................
     # With a submodule-specific thread-safe reentrant lock...
     with claw_lock:
-        # ....................{ BLACKLIST                  }....................
-        # If blacklisting one or more packages from type-checking, do so.
-        # print(f'Blacklisting packages: {repr(conf.claw_skip_package_names)}')
-        if conf.claw_skip_package_names:
-            _blacklist_packages(conf.claw_skip_package_names)
-        # Else, *NO* packages are being blacklisted from type-checking. Fine!
-
         # ....................{ WHITELIST ~ beartype_all   }....................
         # If type-checking *ALL* packages, do so.
         if claw_coverage is BeartypeClawCoverage.PACKAGES_ALL:
@@ -161,6 +154,16 @@ def hook_packages(
         # Else, only a subset of packages are being type-checked. Do it! Do it!
         else:
             _whitelist_packages_some(package_names=package_names, conf=conf)  # type: ignore[arg-type]
+
+        # ....................{ BLACKLIST                  }....................
+        # If blacklisting one or more packages from type-checking, do so. Note
+        # that we intentionally defer doing so until *AFTER* the above
+        # whitelisting has succeeded, as whitelisting raises an exception on
+        # conflicting configurations (and should then leave the blacklist as is).
+        # print(f'Blacklisting packages: {repr(conf.claw_skip_package_names)}')
+        if conf.claw_skip_package_names:
+            _blacklist_packages(conf.claw_skip_package_names)
+        # Else, *NO* packages are being blacklisted from type-checking. Fine!
 
         # ....................{ path hook                  }....................
         # Lastly, if our beartype import path hook singleton has *NOT* already
@@ -378,6 +381,41 @@ def _whitelist_packages_some(
 
     # Avoid circular import dependencies.
     from beartype.claw._clawstate import claw_state
+
+    # For the fully-qualified name of each package to be whitelisted, raise an
+    # exception if that package was already whitelisted under a different
+    # configuration *BEFORE* whitelisting any of these packages below. Doing so
+    # guarantees that a failing call leaves the global trie whitelist unmodified
+    # (rather than whitelisting only the packages preceding that package).
+    for package_name in package_names:  # type: ignore[union-attr]
+        # Subtrie of the global trie whitelist describing this package if this
+        # package has already been described by a prior call to this function
+        # *OR* "None" otherwise.
+        subpackages_trie_whitelist = claw_state.packages_trie_whitelist
+
+        for package_basename in package_name.split('.'):
+            subpackages_trie_whitelist = subpackages_trie_whitelist.get(  # type: ignore[assignment]
+                package_basename)
+
+            if subpackages_trie_whitelist is None:
+                break
+        # If this package has already been described...
+        else:
+            conf_curr = subpackages_trie_whitelist.conf_if_hooked
+
+            # If this package was already whitelisted under a different
+            # configuration, raise an exception.
+            if conf_curr is not None and conf_curr != conf:
+                raise BeartypeClawHookException(
+                    f'Beartype import hook '
+                    f'(e.g., beartype.claw.beartype_*() function) '
+                    f'previously passed conflicting beartype configuration for '
+                    f'package "{package_name}":\n'
+                    f'\t----------( OLD "conf" PARAMETER )----------\n'
+                    f'\t{repr(conf_curr)}\n'
+                    f'\t----------( NEW "conf" PARAMETER )----------\n'
+                    f'\t{repr(conf)}\n'
+                )
 
     # For the fully-qualified name of each package to be whitelisted...
     for package_name in package_names:  # type: ignore[union-attr]
